@@ -13,21 +13,28 @@ structure Suite where
   table : Table
   modes : List Mode
 
-def suites : List Suite := [
-  ⟨"iosxe", Gen.C05.iosxe, PromptGrammar.iosxe⟩,
-  ⟨"iosxr", Gen.C05.iosxr, PromptGrammar.iosxr⟩,
-  ⟨"nxos", Gen.C05.nxos, PromptGrammar.nxos⟩,
-  ⟨"nxosS", Gen.C05.nxosS, PromptGrammar.nxosS Gen.C05.nxosSessions⟩,
-  ⟨"eos", Gen.C05.eos, PromptGrammar.eos⟩,
-  ⟨"eosS", Gen.C05.eosS, PromptGrammar.eosS Gen.C05.eosSessions⟩,
-  ⟨"junos", Gen.C05.junos, PromptGrammar.junos⟩,
-  ⟨"junosFull", Gen.C05.junos, PromptGrammar.junosFull⟩]
+def iosxe : Suite := ⟨"iosxe", Gen.C05.iosxe, PromptGrammar.iosxe⟩
+def iosxr : Suite := ⟨"iosxr", Gen.C05.iosxr, PromptGrammar.iosxr⟩
+def nxos : Suite := ⟨"nxos", Gen.C05.nxos, PromptGrammar.nxos⟩
+def nxosS : Suite := ⟨"nxosS", Gen.C05.nxosS, PromptGrammar.nxosS Gen.C05.nxosSessions⟩
+def eos : Suite := ⟨"eos", Gen.C05.eos, PromptGrammar.eos⟩
+def eosS : Suite := ⟨"eosS", Gen.C05.eosS, PromptGrammar.eosS Gen.C05.eosSessions⟩
+def junos : Suite := ⟨"junos", Gen.C05.junos, PromptGrammar.junos⟩
+/-- the modes whose grammar is restricted by the predicate of an open finding, WITHOUT the restriction
+    (the obligations that fail on the unchanged tree carry machine-checked witnesses) -/
+def junosFull : Suite := ⟨"junosFull", Gen.C05.junos, PromptGrammar.junosFull⟩
+def nxosFull : Suite := ⟨"nxosFull", Gen.C05.nxos, PromptGrammar.nxosFull⟩
+def nxosSFull : Suite := ⟨"nxosSFull", Gen.C05.nxosS, PromptGrammar.nxosSFull⟩
+def eosSFull : Suite := ⟨"eosSFull", Gen.C05.eosS, PromptGrammar.eosSFull Gen.C05.eosSessions⟩
+
+def suites : List Suite := [iosxe, iosxr, nxos, nxosS, eos, eosS, junos, junosFull, nxosFull, nxosSFull, eosSFull]
 
 def suite (n : String) : Suite := (suites.find? (·.name == n)).getD ⟨"", ⟨"", [], .emp⟩, []⟩
 
-/-- the obligation regex: `kind = true` inclusion, `false` disjointness -/
-def obligation (sn : String) (i : Nat) (incl : Bool) : RE :=
-  let s := suite sn
-  if incl then inclOb s.table (nthMode s.modes i) else disjOb s.table (nthMode s.modes i)
+/-- obligation `k = 0`: detection; `k + 1`: level `k` of the table -/
+def Suite.ob (s : Suite) (i k : Nat) : RE :=
+  match k with
+  | 0 => detOb s.table (nthMode s.modes i)
+  | k + 1 => levelOb s.table (nthMode s.modes i) k
 
 end Scrapli.C05
